@@ -1,5 +1,14 @@
-(* Executable model of timeseries/_resampling.py (time = integer microseconds in Z).
-   Definitions only.
+(* Executable model of timeseries/_resampling.py.  Definitions only.
+
+   Time: every datetime is modelled as its UTC INSTANT in integer microseconds (Z); a timedelta is a number
+   of microseconds.  That is exact for what the code does today: `_window_end` is built from
+   `datetime.now(timezone.utc)` and only ever has timedeltas added, so it stays in UTC, and Python compares /
+   subtracts aware datetimes of different tzinfo as instants.  It is NOT how Python adds a timedelta to an
+   aware datetime in a zoneinfo zone (that is done on the local wall clock and drifts by the DST offset across
+   a transition): code that carried `align_to`'s tzinfo into `_window_end` would leave this model.  The tie
+   covers that semantics by scenarios, not by translation: the harness passes `align_to` (C07) and sample
+   stamps (C08) in DST-observing zones (Europe/Berlin, America/New_York), with runs that cross a transition
+   and creation instants in the other regime, and converts every recorded timestamp back to a UTC instant.
 
    Part 1 (C07): `Resampler._calculate_window_end`, the `_window_end` bookkeeping of
    `Resampler.resample` and the series dictionary (`add_timeseries`/`remove_timeseries`).
@@ -37,29 +46,61 @@ Record rstate := mkR {
   r_series : list Z        (* keys of Resampler._resamplers in insertion order *)
 }.
 
-(* Boundary events.  A tick carries labels: how late the timer delivered it, which sinks
-   raise during this tick, which sources have already stopped (their helper raises before
-   the sink is called).  [late] does not influence anything: that is the theorem. *)
+(* add_timeseries / remove_timeseries on the key list *)
+Definition add_series (s : Z) (l : list Z) : list Z := if zmem s l then l else l ++ [s].
+Definition remove_series (s : Z) (l : list Z) : list Z := filter (fun x => negb (x =? s)) l.
+
+(* a change of the series dictionary made by another task WHILE a tick's sinks are awaited *)
+Inductive change := CAdd (s : Z) | CRemove (s : Z).
+Definition apply_change (l : list Z) (c : change) : list Z :=
+  match c with CAdd s => add_series s l | CRemove s => remove_series s l end.
+
+(* how `resample()` leaves one iteration of its loop *)
+Inductive outcome :=
+| OOk                         (* goes on to the next tick *)
+| ORaised (srcs : list Z)     (* raises ResamplingError({src: exc}) *)
+| OCrash.                     (* dies with IndexError (see [tick_outcome]) *)
+
+(* Boundary events.  A tick carries labels: how late the timer delivered it, which sinks raise during
+   this tick, which sources have already stopped (their helper raises before the sink is called), and which
+   dictionary changes happen while its gather is in flight.  [late] does not influence anything: that is
+   the theorem. *)
 Inductive revent :=
-| Tick (late : Z) (fail dead : list Z)
+| Tick (late : Z) (fail dead : list Z) (during : list change)
 | Add (s : Z)
 | Remove (s : Z).
 
-(* outputs of one event: the (series, timestamp) pairs handed to sinks, in gather order,
-   and whether resample() raised ResamplingError *)
-Definition rstep (period : Z) (st : rstate) (e : revent) : rstate * (list (Z * Z) * bool) :=
-  match e with
-  | Add s =>
-    (if zmem s (r_series st) then st else mkR (r_wend st) (r_series st ++ [s]), ([], false))
-  | Remove s =>
-    (mkR (r_wend st) (filter (fun x => negb (x =? s)) (r_series st)), ([], false))
-  | Tick _ fail dead =>
-    (mkR (r_wend st + period) (r_series st),
-     (map (fun s => (s, r_wend st)) (filter (fun s => negb (zmem s dead)) (r_series st)),
-      existsb (fun s => zmem s fail || zmem s dead) (r_series st)))
+(* `{source: results[i] for i, source in enumerate(self._resamplers) if isinstance(results[i], ...)}`:
+   the results of the gather (one per series registered when the tick began, True = an exception) are paired
+   by POSITION with the keys registered when the gather has finished. *)
+Fixpoint reported (keys : list Z) (results : list bool) : list Z :=
+  match keys, results with
+  | k :: ks, r :: rs => if r then k :: reported ks rs else reported ks rs
+  | _, _ => []
   end.
 
-Fixpoint rrun (period : Z) (st : rstate) (es : list revent) : list (list (Z * Z) * bool) :=
+(* more keys than results: `results[i]` raises IndexError (a series was added during the gather) *)
+Definition tick_outcome (keys_after : list Z) (results : list bool) : outcome :=
+  if (length results <? length keys_after)%nat then OCrash
+  else match reported keys_after results with [] => OOk | l => ORaised l end.
+
+(* outputs of one event: the (series, timestamp) pairs handed to sinks, in gather order, and how the
+   loop iteration ended.  `_window_end += period` is executed after the gather and BEFORE the
+   exceptions are collected, i.e. on every one of the three ways out. *)
+Definition rstep (period : Z) (st : rstate) (e : revent) : rstate * (list (Z * Z) * outcome) :=
+  match e with
+  | Add s => (mkR (r_wend st) (add_series s (r_series st)), ([], OOk))
+  | Remove s => (mkR (r_wend st) (remove_series s (r_series st)), ([], OOk))
+  | Tick _ fail dead during =>
+    let keys := r_series st in
+    let results := map (fun s => zmem s fail || zmem s dead) keys in
+    let keys' := fold_left apply_change during keys in
+    (mkR (r_wend st + period) keys',
+     (map (fun s => (s, r_wend st)) (filter (fun s => negb (zmem s dead)) keys),
+      tick_outcome keys' results))
+  end.
+
+Fixpoint rrun (period : Z) (st : rstate) (es : list revent) : list (list (Z * Z) * outcome) :=
   match es with
   | [] => []
   | e :: es' => let '(st', o) := rstep period st e in o :: rrun period st' es'
@@ -75,13 +116,21 @@ Definition rinit (now period : Z) (align_to : option Z) (we : Z * Z) : rstate :=
 
 (* erase the lateness label *)
 Definition unlabel (e : revent) : revent :=
-  match e with Tick _ f d => Tick 0 f d | _ => e end.
+  match e with Tick _ f d du => Tick 0 f d du | _ => e end.
 
 (* timestamps handed to series [s] by a run *)
-Definition emitted (s : Z) (outs : list (list (Z * Z) * bool)) : list Z :=
+Definition emitted (s : Z) (outs : list (list (Z * Z) * outcome)) : list Z :=
   flat_map (fun o => map snd (filter (fun p => fst p =? s) (fst o))) outs.
 
-Definition is_tick (e : revent) : bool := match e with Tick _ _ _ => true | _ => false end.
+Definition is_tick (e : revent) : bool := match e with Tick _ _ _ _ => true | _ => false end.
+
+Definition outcome_eqb (a b : outcome) : bool :=
+  match a, b with
+  | OOk, OOk => true
+  | OCrash, OCrash => true
+  | ORaised x, ORaised y => listZ_eqb x y
+  | _, _ => false
+  end.
 
 (* ------------------------------------------------------------------ Part 2: one source *)
 
@@ -227,5 +276,5 @@ Fixpoint hcheck (c : hconf) (st : hstate) (es : list (hevent * option hexp)) : b
      end) && hcheck c st' es'
   end.
 
-Definition outs_eqb (a b : list (Z * Z) * bool) : bool :=
-  list_eqb (pair_eqb Z.eqb Z.eqb) (fst a) (fst b) && Bool.eqb (snd a) (snd b).
+Definition outs_eqb (a b : list (Z * Z) * outcome) : bool :=
+  list_eqb (pair_eqb Z.eqb Z.eqb) (fst a) (fst b) && outcome_eqb (snd a) (snd b).
